@@ -6,7 +6,7 @@ V = os.path.dirname(os.path.dirname(os.path.abspath(__file__)))
 pid, n = sys.argv[1], sys.argv[2]
 prop = [json.loads(l) for l in open(V + '/properties.jsonl') if json.loads(l)['id'] == pid][0]
 text = '%s — %s\n\n%s' % (prop['id'], prop['title'], prop['statement'])
-t = open(V + '/seeded/PROMPT.txt').read()
+t = open(V + '/seeded/' + ('PROMPT3.txt' if int(n) >= 3 else 'PROMPT.txt')).read()
 t = t.replace('WORKTREE', '/tmp/seed-%s-%s' % (pid, n)).replace('OUTDIR', '/tmp/seed-%s-%s-out' % (pid, n)).replace('PROPTEXT', text)
 prev = []
 for d in sorted(glob.glob(V + '/seeded/%s-*' % pid)):
@@ -16,8 +16,10 @@ if prev:
     extra = ('\nEarlier rounds already produced the following change(s) for this property. Do NOT repeat them or a close variant; '
              'pick a DIFFERENT clause of the property and a different mechanism / function in the code (read the whole relevant code first, '
              'and prefer a subtle change a reviewer could plausibly wave through):\n' + ''.join('  - %s\n' % p for p in prev))
-    t = t.replace('Then write a DEMONSTRATION', extra + '\nThen write a DEMONSTRATION')
-t += ('\nPractical: a copy of a warm cargo target directory is already in the worktree (target/), so builds are incremental. '
+    t = t.replace('Then write a DEMONSTRATION', extra + '\nThen write a DEMONSTRATION').replace('PREVIOUS\n', extra.lstrip('\n') + '\n')
+t = t.replace('PREVIOUS\n', '')
+if int(n) < 3:
+  t += ('\nPractical: a copy of a warm cargo target directory is already in the worktree (target/), so builds are incremental. '
       'Other agents are building on this machine at the same time; use `cargo nextest run ... --test-threads 8` once for the full-suite check near the end '
       '(timing-sensitive "longtests" can flake under load: re-run a failing one alone before concluding). Demo test module name must contain the word `seeded`.\n')
 print(t)
